@@ -2,12 +2,13 @@
 """Development helper: prints the prompt given to a fresh 'seeding' sub-agent for property <id>
 (only the property's text and a scratch worktree; nothing from /verif)."""
 import json,sys
-pid=sys.argv[1]; n=sys.argv[2] if len(sys.argv)>2 else "3"
+pid=sys.argv[1]; n=sys.argv[2] if len(sys.argv)>2 else "3"; start=int(sys.argv[3]) if len(sys.argv)>3 else 1
+wave="" if start==1 else f"-w{start}"
 p=[json.loads(l) for l in open('/verif/properties.jsonl') if json.loads(l)['id']==pid][0]
 low=pid.lower()
 print(f"""You are a Go engineer helping to test a verification tool by writing realistic BUGS. The project is saucelabs/forwarder (a Go HTTP/HTTPS forward proxy). Do NOT read or use anything under /verif or /work (off limits). Never modify /repo itself.
 
-Set up your own scratch worktree: `git -C /repo worktree add --detach /tmp/seed-{low}` and work ONLY there. Go environment for every shell call: `export GOFLAGS=-mod=mod GOPROXY=off GOTOOLCHAIN=auto` (do NOT set GOSUMDB, do not use GOTOOLCHAIN=local; there is no network; the repo's go.mod wants go 1.23.12 which is cached and auto-selected).
+Set up your own scratch worktree: `git -C /repo worktree add --detach /tmp/seed-{low}{wave}` and work ONLY there. Go environment for every shell call: `export GOFLAGS=-mod=mod GOPROXY=off GOTOOLCHAIN=auto` (do NOT set GOSUMDB, do not use GOTOOLCHAIN=local; there is no network; the repo's go.mod wants go 1.23.12 which is cached and auto-selected).
 
 Here is a semantic property the project is supposed to satisfy:
 
@@ -24,9 +25,9 @@ Anchored in files: {', '.join(p['anchors']['files'])}
 Produce {n} different, independent changes to the forwarder source (each one a separate small patch against the unmodified tree) such that each:
  (a) breaks the property above (makes it false for some inputs / schedules / histories),
  (b) still compiles (`go build ./...`) and still passes the project's existing test suite: run `go test -vet=off -count=1 ./...` in the worktree before and after; tests that already fail on the unmodified tree may be ignored, but your change must not make any additional test fail,
- (c) is REALISTIC (the kind of slip a maintainer could make in a refactor or "optimisation") and SUBTLE: it must need something specific to manifest — a particular interleaving, a fault at a particular point, a multi-step sequence of operations, an unusual input, a specific configuration, or two cooperating sites that each look fine alone — NOT something that ordinary use or the obvious happy path would expose at once. Do not just delete a feature or invert an obvious condition. Vary the changes: touch different clauses of the property and different code sites.
+ (c) is REALISTIC (the kind of slip a maintainer could make in a refactor or "optimisation") and SUBTLE: it must need something specific to manifest — a particular interleaving, a fault at a particular point, a multi-step sequence of operations, an unusual input, a specific configuration, or two cooperating sites that each look fine alone — NOT something that ordinary use or the obvious happy path would expose at once. Do not just delete a feature or invert an obvious condition. Vary the changes: touch different clauses of the property and different code sites, including the less obvious ones (helpers, constructors, option plumbing, error paths, code shared with other features) rather than only the first function that comes to mind.
  (d) comes with a DEMONSTRATION: a Go test file (or small program) that FAILS with the change applied and PASSES on the unmodified tree, exercising observable behaviour (sockets / exported API) where possible.
 
-For each change i write into /tmp/seed-out/{low}-<i>/ : `patch.diff` (output of `git diff` in the worktree, applying cleanly with `git apply` to the unmodified tree), the demonstration file(s) plus a `demo.sh` that runs it given the path of a tree as $1 (exit 0 = property holds there, non-zero = broken; it may copy the demo test into the tree temporarily but must clean up), and `meta.json` {{"property":"{pid}","title":…,"what_breaks":…,"needs_to_manifest":…,"files_touched":[…],"commands_run":[…],"tests_before":…,"tests_after":…}}. Reset the worktree between changes (`git -C /tmp/seed-{low} checkout -- . && git -C /tmp/seed-{low} clean -fd`). Verify each patch yourself: apply to a clean worktree, build, run the full test suite, run the demo (fails), un-apply, run the demo (passes).
+For each change i (numbered i = {start}, {start+1}, …) write into /tmp/seed-out/{low}-<i>/ : `patch.diff` (output of `git diff` in the worktree, applying cleanly with `git apply` to the unmodified tree), the demonstration file(s) plus a `demo.sh` that runs it given the path of a tree as $1 (exit 0 = property holds there, non-zero = broken; it may copy the demo test into the tree temporarily but must clean up), and `meta.json` {{"property":"{pid}","title":…,"what_breaks":…,"needs_to_manifest":…,"files_touched":[…],"commands_run":[…],"tests_before":…,"tests_after":…}}. Reset the worktree between changes (`git -C /tmp/seed-{low}{wave} checkout -- . && git -C /tmp/seed-{low}{wave} clean -fd`). Verify each patch yourself: apply to a clean worktree, build, run the full test suite, run the demo (fails), un-apply, run the demo (passes).
 
-When finished remove the worktree: `git -C /repo worktree remove --force /tmp/seed-{low}`. Final report: for each change one paragraph (what, why it is subtle, what it needs to manifest) and the verification results.""")
+When finished remove the worktree: `git -C /repo worktree remove --force /tmp/seed-{low}{wave}`. Final report: for each change one paragraph (what, why it is subtle, what it needs to manifest) and the verification results.""")
